@@ -471,12 +471,15 @@ Definition model_stale_built (s : stale_case) : bool :=
   let ce2 := const_env (s_pkg2 s) in
   forallb (fun g => compiles ce2 g (negb (s_shimmed s))) (gens_of (s_pkg s) (s_targets s)).
 
-(* the property: if the value of some constant named in a generated file has
-   changed (or the constant is gone), the package must not build any more *)
+(* the property: if the value of some declared constant of a generated type has
+   changed (or the constant is gone), the package must not build any more.  Judged
+   for the types inside the theorems' guard (a type generated alongside that has
+   an implicitly typed constant, K_enum_implicit_type, is only compared with the model) *)
 Definition some_value_changed (s : stale_case) : bool :=
   let ce1 := const_env (s_pkg s) in
   let ce2 := const_env (s_pkg2 s) in
   existsb (fun tf =>
+     enum_guard (s_pkg s) (fst tf) &&
      existsb (fun nv =>
         match lookup_c (fst nv) ce2 with
         | Some e => negb (ce_val e =? snd nv)
